@@ -50,6 +50,7 @@ type hookCase struct {
 	Link      string   `json:"link"`
 	MediaType string   `json:"mediaType"`
 	Entry     string   `json:"entry"`
+	Step      int      `json:"step"`
 }
 
 type dumpRec struct {
@@ -84,10 +85,10 @@ const videoURL = "https://h1.example/video"
 
 func buildWorld(link, mt string) *fedi.Net {
 	n := fedi.New()
-	l := fedi.Link(link, "attachment name", mt)
-	post := fedi.Note(postURL, `<p>see <a href="`+html.EscapeString(link)+`">this</a></p>`)
+	l := fedi.Link(link, "media name", mt)
+	post := fedi.Note(postURL, `<p>see <a href="`+html.EscapeString(variant(link, "body"))+`">this</a></p>`)
 	post["url"] = l
-	post["attachment"] = []any{l}
+	post["attachment"] = []any{fedi.Link(variant(link, "att"), "attachment name", mt)}
 	n.Serve(post)
 	video := fedi.M{"type": "Video", "id": videoURL, "name": "a video", "published": fedi.Old, "url": []any{l}}
 	n.Serve(video)
@@ -97,9 +98,22 @@ func buildWorld(link, mt string) *fedi.Net {
 		img["mediaType"] = mt
 	}
 	actor["icon"] = img
-	actor["image"] = img
+	banner := fedi.M{"type": "Image", "url": variant(link, "banner")}
+	if mt != "" {
+		banner["mediaType"] = mt
+	}
+	actor["image"] = banner
 	n.Serve(actor)
 	return n
+}
+
+// variant gives every slot of a page its own link, so that consecutive opens on one
+// page (with one configuration object) must deliver different arguments.
+func variant(link, slot string) string {
+	if strings.Contains(link, "?") {
+		return link + "&slot=" + slot
+	}
+	return link + "?slot=" + slot
 }
 
 // entries: which page to open, which keys to press, and the selector that gives the
@@ -165,64 +179,94 @@ func hookKey(c hookCase, what string) string {
 func runGroup(r *ev.Report, link, mt string, hooks [][]string, only *hookCase) {
 	net := buildWorld(link, mt)
 	net.W.Install()
-	for _, e := range entries {
-		if only != nil && only.Entry != e.Name {
-			continue
+	pages := []string{postURL, videoURL, actorURL}
+	for _, page := range pages {
+		var steps []entry
+		for _, e := range entries {
+			if e.Page == page {
+				steps = append(steps, e)
+			}
+		}
+		// a second round in reverse order: every open also runs from a state in which the
+		// same configuration has already been used for other links
+		for i := len(steps) - 1; i >= 0; i-- {
+			steps = append(steps, steps[i])
+		}
+		if only != nil {
+			found := false
+			for _, e := range steps {
+				if e.Name == only.Entry {
+					found = true
+				}
+			}
+			if !found {
+				continue
+			}
 		}
 		uidrv.Reset()
-		item, ok := pub.New(e.Page, nil).(pub.Tangible)
+		item, ok := pub.New(page, nil).(pub.Tangible)
 		if !ok {
-			ev.Fatal("world page %s is not a Tangible", e.Page)
+			ev.Fatal("world page %s is not a Tangible", page)
 		}
 		if _, isFail := item.(*pub.Failure); isFail {
-			ev.Fatal("world page %s failed to load: %s", e.Page, item.Name())
+			ev.Fatal("world page %s failed to load: %s", page, item.Name())
 		}
-		wantLink, wantMT, present := e.Sel(item)
 		d := uidrv.New(80, 24)
-		if err := d.Command("open", e.Page); err != nil || d.Panic != "" {
-			ev.Fatal("cannot open %s: %v %s", e.Page, err, d.Panic)
+		if err := d.Command("open", page); err != nil || d.Panic != "" {
+			ev.Fatal("cannot open %s: %v %s", page, err, d.Panic)
 		}
 		for _, hook := range hooks {
-			c := hookCase{Hook: hook, Link: link, MediaType: mt, Entry: e.Name}
-			config.Parsed.Media.Hook = append([]string{}, hook...)
-			os.Remove(dumpFile)
-			d.Keys(e.Keys)
-			r.Eval(1)
-			if present && len(hook) > 1 {
-				r.Distinct(fmt.Sprint(hook, link, mt, e.Name))
-			}
-			if d.Panic != "" {
-				r.Violation(hookKey(c, "panic"), map[string]any{"case": c, "msg": d.Panic})
-				// the UI is gone: rebuild it for the remaining hooks
-				d = uidrv.New(80, 24)
-				uidrv.Reset()
-				d.Command("open", e.Page)
-				continue
-			}
-			recs := readDump()
-			snap, _ := d.Snapshot()
-			if snap.Mode != 1 || snap.Buffer != "" {
-				r.Violation(hookKey(c, "mode"), map[string]any{"case": c, "msg": fmt.Sprintf("after the hook finished the UI is in mode %d with buffer %q", snap.Mode, snap.Buffer)})
-				d.Key(27)
-			}
-			programOK := hook[0] == vdump
-			if !present || !programOK {
-				if len(recs) != 0 {
-					r.Violation(hookKey(c, "spurious"), map[string]any{"case": c, "records": recs, "msg": "a process was started although there is no link / no such program"})
+			// one configuration object for the whole sequence of opens, as in a real session
+			config.Parsed.Media.Hook = append(make([]string, 0, len(hook)), hook...)
+			for si, e := range steps {
+				wantLink, wantMT, present := e.Sel(item)
+				c := hookCase{Hook: hook, Link: link, MediaType: mt, Entry: e.Name, Step: si}
+				os.Remove(dumpFile)
+				d.Keys(e.Keys)
+				r.Eval(1)
+				if present && len(hook) > 1 {
+					r.Distinct(fmt.Sprint(hook, link, mt, e.Name, si))
 				}
-				continue
-			}
-			if len(recs) != 1 {
-				r.Violation(hookKey(c, "count"), map[string]any{"case": c, "records": len(recs), "msg": fmt.Sprintf("%d processes started for one key", len(recs))})
-				continue
-			}
-			wantArgv, wantStdin := expectedArgv(hook, wantLink, wantMT)
-			if !reflect.DeepEqual(recs[0].Argv, wantArgv) {
-				r.Violation(hookKey(c, "argv"), map[string]any{"case": c, "got": trunc(recs[0].Argv), "want": trunc(wantArgv), "msg": "hook argv differs from the configured argv with exact-match placeholders substituted"})
-				continue
-			}
-			if recs[0].Stdin != wantStdin {
-				r.Violation(hookKey(c, "stdin"), map[string]any{"case": c, "got": truncS(recs[0].Stdin), "want": truncS(wantStdin), "msg": "hook stdin is wrong"})
+				if d.Panic != "" {
+					r.Violation(hookKey(c, "panic"), map[string]any{"case": c, "msg": d.Panic})
+					d = uidrv.New(80, 24)
+					uidrv.Reset()
+					d.Command("open", page)
+					break
+				}
+				if !reflect.DeepEqual(config.Parsed.Media.Hook, hook) {
+					r.Violation(hookKey(c, "config-mutated"), map[string]any{"case": c, "configured": hook, "now": trunc(config.Parsed.Media.Hook), "msg": "opening a link rewrote the configured hook"})
+					config.Parsed.Media.Hook = append(make([]string, 0, len(hook)), hook...)
+				}
+				recs := readDump()
+				snap, _ := d.Snapshot()
+				if snap.Mode != 1 || snap.Buffer != "" {
+					r.Violation(hookKey(c, "mode"), map[string]any{"case": c, "msg": fmt.Sprintf("after the hook finished the UI is in mode %d with buffer %q", snap.Mode, snap.Buffer)})
+					d.Key(27)
+				}
+				programOK := hook[0] == vdump
+				if !present || !programOK {
+					if len(recs) != 0 {
+						r.Violation(hookKey(c, "spurious"), map[string]any{"case": c, "records": recs, "msg": "a process was started although there is no link / no such program"})
+					}
+					continue
+				}
+				if len(recs) != 1 {
+					r.Violation(hookKey(c, "count"), map[string]any{"case": c, "records": len(recs), "msg": fmt.Sprintf("%d processes started for one key", len(recs))})
+					continue
+				}
+				wantArgv, wantStdin := expectedArgv(hook, wantLink, wantMT)
+				if !reflect.DeepEqual(recs[0].Argv, wantArgv) {
+					what := "argv"
+					if si > 0 {
+						what = "argv-later-open"
+					}
+					r.Violation(hookKey(c, what), map[string]any{"case": c, "got": trunc(recs[0].Argv), "want": trunc(wantArgv), "msg": "hook argv differs from the configured argv with exact-match placeholders substituted"})
+					continue
+				}
+				if recs[0].Stdin != wantStdin {
+					r.Violation(hookKey(c, "stdin"), map[string]any{"case": c, "got": truncS(recs[0].Stdin), "want": truncS(wantStdin), "msg": "hook stdin is wrong"})
+				}
 			}
 		}
 	}
@@ -264,7 +308,7 @@ func allHooks(maxArgs int) [][]string {
 func main() {
 	r := ev.New("C20", "exploration",
 		"hook = dump program + every argument sequence of length <=2 (quick) / <=3 (thorough) over {%url,%mimetype,%supertype,%subtype,x%url,%url%url,%URL,--,\"\"} plus hooks whose program is a placeholder; "+
-			"x 17 hostile links (one of them the path of an executable) x 5 media types x 6 entry points (o on a note and on a video, number+Enter for a body link and an attachment, p and b on an actor) through ui.State.Update with a real exec; "+
+			"x 17 hostile links (one of them the path of an executable) x 5 media types x 6 entry points (o on a note and on a video, number+Enter for a body link and an attachment, p and b on an actor; every slot has its own link), each page's entry points pressed in sequence and again in reverse order under one configuration object, through ui.State.Update with a real exec; "+
 			"distinct_nontrivial = cases with at least one argument where a process is started")
 	vdump = filepath.Join(ev.VerifDir(), "bin", "vdump")
 	if _, err := os.Stat(vdump); err != nil {
